@@ -24,6 +24,9 @@ def op_configs(tier):
     add("segregating B, screen object used a second time after an in-place reveal", op="segr", fam="B", R=4, pmax=3, reuse=True)
     add("segregating B", op="segr", fam="B", R=4 if q else 5, pmax=3)
     add("segregating M (twelve samples: more than ten generated plates)", op="segr", fam="M", R=14, pmax=2)
+    # plate sizes: a sample of n experiments under every size limit 1..5 (one draw of the generator: the identity permutation)
+    for n in ((7, 11, 14) if q else range(1, 20)):
+        add("segregating, one sample with %d experiments" % n, op="segr", fam="L%d" % n, R=n + 2, pmax=5, fixed_rng=True)
     add("pairwise D", op="pair", fam="D", R=4 if q else 6)
     add("pairwise H (single-agent rows for the last sample only)", op="pair", fam="H", R=6 if q else 7)
     add("merge-min C", op="mergemin", fam="C", R=6 if q else 7, pmax=6)
@@ -44,6 +47,10 @@ def op_configs(tier):
     add("sparse-cover A", op="cover", fam="A", R=4 if q else 5)
     add("sparse-cover B", op="cover", fam="B", R=4)
     add("balanced hold-out A", op="holdout", fam="A", R=5)
+    add("balanced hold-out R (replicates on one plate)", op="holdout", fam="R", R=7)
+    add("random hold-out R (replicates on one plate)", op="rholdout", fam="R", R=5)
+    add("fixed-size R (replicates on one plate)", op="fixed", fam="R", R=7, pmax=3)
+    add("segregating R (replicates on one plate)", op="segr", fam="R", R=6, pmax=3)
     add("balanced hold-out C", op="holdout", fam="C", R=4 if q else 6)
     add("random hold-out A", op="rholdout", fam="A", R=4)
     add("hold-out fraction outside [0,1]", op="badfraction", fam="A", R=3)
@@ -78,6 +85,28 @@ def op_configs(tier):
 N_GENERATED = 64
 
 
+class _IdentityRng:
+    """a generator that returns the least surprising legal value: the identity permutation, the first k elements"""
+
+    def __init__(self, np):
+        self.np = np
+
+    def permutation(self, x):
+        return self.np.array(list(range(int(x))) if isinstance(x, int) else list(x.tolist() if hasattr(x, "tolist") else x))
+
+    def shuffle(self, x):
+        return None
+
+    def choice(self, a, size=None, replace=True, p=None, axis=0, shuffle=True):
+        items = list(range(int(a))) if isinstance(a, int) else list(a.tolist() if hasattr(a, "tolist") else a)
+        if size is None:
+            return items[0]
+        k = int(size)
+        if not replace and k > len(items):
+            raise ValueError("Cannot take a larger sample than population when replace is False")
+        return self.np.array([items[i % len(items)] for i in range(k)] if replace else items[:k])
+
+
 def _first_use_then_reveal(ctx, screen, rows, mask, tags, use):
     """the screen object is prepared once, one of its unobserved plates is then marked observed in place (set_observed with
     the stored values), and the operation under test is applied to the same object again"""
@@ -109,7 +138,7 @@ def run_op(ctx, cfg, want11, want13):
     retro = ctx.mod("batchie.retrospective")
     data = ctx.mod("batchie.data")
     op, fam, R = cfg["op"], cfg["fam"], cfg["R"]
-    rng = ctx.rng("R")
+    rng = _IdentityRng(np) if cfg.get("fixed_rng") else ctx.rng("R")
     P11 = (lambda c, label, **kw: ctx.prove(c, label, **kw)) if want11 else (lambda c, label, **kw: None)
     P13 = (lambda c, label, **kw: ctx.prove(c, label, **kw)) if want13 else (lambda c, label, **kw: None)
 
